@@ -8,6 +8,7 @@ import Ajson.Spec.WF
 import Ajson.Model.Decode
 import Ajson.Proofs.HeapBasics
 import Ajson.Proofs.WFInv
+import Ajson.Proofs.DecodeStruct
 
 namespace Ajson.Props.C06
 open Ajson Ajson.Heap
@@ -124,6 +125,16 @@ theorem C06_struct_positions {h : Heap} (hs : Proofs.Struct h) (p : Nat) (hp : p
 /-- a clean node still has its source, and everything below it is clean too: Marshal may copy its bytes -/
 theorem C06_struct_clean {h : Heap} (hs : Proofs.Struct h) (p : Nat) (hp : p < h.size) (hc : (h.get p).dirty = false) :
     (h.get p).data.isSome = true ∧ (h.get p).b1 ≠ 0 ∧ ∀ kc ∈ h.childMap p, (h.get kc.2).dirty = false := (hs p hp).clean hc
+
+/-- **every parsed document is structurally sound**: for EVERY accepted text the heap `Unmarshal` returns satisfies `Struct` (the
+base case of the invariant; the mutators preserve it, `Props.C05`) -/
+theorem C06_parsed_is_sound (data : Bytes) (v : Spec.STree) (hp : Spec.parseRef data = .ok v) :
+    ∃ H, unmarshal data = .ok (H, 0) ∧ Proofs.Struct H := Proofs.struct_unmarshal data v hp
+
+/-- … also when other documents already exist in the session (heap with ordered ids, as produced by parsing) -/
+theorem C06_parsed_is_sound_on_heap {h : Heap} (hs : Proofs.Struct h) (ho : Proofs.HeapOrd h) (data : Bytes) (v : Spec.STree)
+    (hp : Spec.parseRef data = .ok v) : ∃ H, unmarshalIn h data = .ok (H, h.size) ∧ Proofs.Struct H :=
+  Proofs.struct_unmarshalIn hs ho data v hp
 
 /-- non-vacuity: a parsed document and a document built by constructors and mutators are well formed -/
 example : (match unmarshal "{\"a\":[1,{\"b\":null}],\"a\":2,\"c\":\"x\"}".toUTF8.toList with
